@@ -354,7 +354,8 @@ func runC11(c *core.Ctx) {
 		}
 		r := c.Rand(i, 11)
 		env := gen.StdEnv(r)
-		f := gen.Features{Loops: true, Tablerow: true, Cycle: true, Assign: true, Case: i%2 == 0, Capture: i%3 == 0, Filters: i%2 == 1, Model: true, MaxDepth: 4, MaxNodes: 16}
+		// captured tablerow markup must not reach filters (its attributes are not stated): tablerow only without capture
+		f := gen.Features{Loops: true, Tablerow: i%3 != 0, Cycle: true, Assign: true, Case: i%2 == 0, Capture: i%3 == 0, Filters: i%2 == 1, Model: true, MaxDepth: 4, MaxNodes: 16}
 		g := gen.NewG(r, f, env)
 		prog := g.Program()
 		if i%2 == 0 { // force a loop at top level
